@@ -25,6 +25,10 @@ type c15Req struct {
 func RunC15(r *sim.Run) {
 	t := r.T
 	w := NewWorld(r, Options{TokenSuccessTTL: 0, TokenFailureTTL: 0, AuthzAllowTTL: time.Minute, AuthzDenyTTL: time.Minute})
+	if strings.Contains(r.Profile, "preempt") {
+		w.EnablePreemption(uint64(t.Draw(1 << 30)))
+		defer func() { r.ProbeN("preemptions_inside_gateway_code", w.Sc.Preempts) }()
+	}
 	defer w.Stop()
 	alpha := w.AddClusterStub("alpha", 3, 0)
 	beta := w.AddClusterStub("beta", 1, 1)
